@@ -65,6 +65,12 @@ impl Qcow2IoTokio {
 
         assert!(res == buf.len());
 
+        // tokio's File::write() returns as soon as the data is copied into
+        // its own buffer, the write(2) is still queued in the blocking pool;
+        // wait for it, otherwise the caller sees a completed write which isn't
+        // in the file yet, and fallocate() on the raw fd can overtake it
+        file.flush().await?;
+
         Ok(())
     }
 }
